@@ -57,7 +57,11 @@ func execStep(context *exprContext, expr *grammar.Grammar) error {
 		}
 	}
 
+	implicitChild := false
+
 	switch nextBsr.Label.Slot().NT {
+	case symbols.NT_FunctionCall:
+		return execContext(context, expr.Next(nextBsr))
 	case symbols.NT_NodeTest,
 		symbols.NT_NodeTestAndPredicate,
 		symbols.NT_NodeTestNodeTypeNoArgTest,
@@ -73,16 +77,49 @@ func execStep(context *exprContext, expr *grammar.Grammar) error {
 		symbols.NT_NameTestQNameNamespaceWithLocalReservedNameConflictBoth,
 		symbols.NT_NameTestQNameLocalOnly,
 		symbols.NT_NameTestQNameLocalOnlyReservedNameConflict:
-		nodeSet, ok := context.result.(NodeSet)
+		implicitChild = true
+	}
+
+	nodeSet, ok := context.result.(NodeSet)
+
+	if !ok {
+		return errQueryNonNodeset
+	}
+
+	// Each context node is stepped from separately, so that predicates see
+	// the proximity position and context size defined by XPath 1.0.
+	result := make(NodeSet, 0)
+	reverse := false
+
+	for _, i := range nodeSet {
+		nextContext := context.copy()
+		nextContext.result = NodeSet{i}
+
+		if implicitChild {
+			nextContext.result = selectChild(NodeSet{i})
+		}
+
+		if err := execContext(&nextContext, expr.Next(nextBsr)); err != nil {
+			return err
+		}
+
+		next, ok := nextContext.result.(NodeSet)
 
 		if !ok {
 			return errQueryNonNodeset
 		}
 
-		context.result = selectChild(nodeSet)
+		result = append(result, next...)
+		reverse = nextContext.reverseAxis
 	}
 
-	return execContext(context, expr.Next(nextBsr))
+	if reverse {
+		context.result = cleanupBackwardAxis(result)
+	} else {
+		context.result = cleanupForwardAxis(result)
+	}
+
+	return nil
 }
 
 func execPredicate(context *exprContext, expr *grammar.Grammar) error {
@@ -426,8 +463,10 @@ func execAxisName(context *exprContext, expr *grammar.Grammar) error {
 		result = selectAttributes(nodeSet)
 	case "ancestor":
 		result = selectAncestor(nodeSet)
+		context.reverseAxis = true
 	case "ancestor-or-self":
 		result = selectAncestorOrSelf(nodeSet)
+		context.reverseAxis = true
 	case "descendant":
 		result = selectDescendant(nodeSet)
 	case "descendant-or-self":
@@ -442,8 +481,10 @@ func execAxisName(context *exprContext, expr *grammar.Grammar) error {
 		result = selectParent(nodeSet)
 	case "preceding":
 		result = selectPreceding(nodeSet)
+		context.reverseAxis = true
 	case "preceding-sibling":
 		result = selectPrecedingSibling(nodeSet)
+		context.reverseAxis = true
 	default: // self
 		return nil
 	}
